@@ -188,15 +188,20 @@ impl<R> Arguments<R> {
             pos_args.push(arg);
         }
 
+        // Python lists keyword-only arguments without defaults before those with defaults.
         let mut kw_only = Vec::with_capacity(kwonlyargs.len());
+        let mut kw_with_defaults = Vec::new();
         let mut kw_defaults = Vec::new();
         for arg in kwonlyargs {
             let (arg, default) = arg.to_arg();
             if let Some(default) = default {
                 kw_defaults.push(*default);
+                kw_with_defaults.push(arg);
+            } else {
+                kw_only.push(arg);
             }
-            kw_only.push(arg);
         }
+        kw_only.extend(kw_with_defaults);
 
         PythonArguments {
             range: range.clone(),
@@ -238,15 +243,20 @@ impl<R> Arguments<R> {
             pos_args.push(arg);
         }
 
+        // Python lists keyword-only arguments without defaults before those with defaults.
         let mut kw_only = Vec::with_capacity(kwonlyargs.len());
+        let mut kw_with_defaults = Vec::new();
         let mut kw_defaults = Vec::new();
         for arg in kwonlyargs {
             let (arg, default) = arg.into_arg();
             if let Some(default) = default {
                 kw_defaults.push(*default);
+                kw_with_defaults.push(arg);
+            } else {
+                kw_only.push(arg);
             }
-            kw_only.push(arg);
         }
+        kw_only.extend(kw_with_defaults);
 
         PythonArguments {
             range,
@@ -299,7 +309,7 @@ impl<R> PythonArguments<R> {
 
         let mut kw_only = Vec::with_capacity(kwonlyargs.len());
         let kw_defaults: Vec<_> = std::iter::repeat_with(|| None)
-            .take(kw_only.len().saturating_sub(kw_defaults.len()))
+            .take(kwonlyargs.len().saturating_sub(kw_defaults.len()))
             .chain(kw_defaults.into_iter().map(Some))
             .collect();
         for (arg, default) in std::iter::zip(kwonlyargs, kw_defaults) {
